@@ -131,6 +131,11 @@ func autosaveHistGen(tier string, r *rng, emit func(string)) {
 		for _, kind := range []string{"S", "L"} {
 			content, _ := autosaveHistReference(kind, old, hasOld, prog1, prog2)
 			changed := sz[1] > 0
+			// the second program always adds bindings: a last save that leaves the old bytes has been skipped
+			// ("nothing changed") although the state changed - the expected new content is not taken from such a run
+			if changed && (content == old || !strings.Contains(content, "k000")) {
+				panic("autosave history: the save after a changed state left the old file (kind " + kind + ")")
+			}
 			var lines []string
 			if changed {
 				lines = splitLines(content)
